@@ -7,16 +7,20 @@ CONSTANTS N, EMIT, IncludeCtx
 VARIABLES items
 Msgs == {"m1", "m two"}
 Items == { [k |-> "fail", ctx |-> c, m |-> (IF c \in {"script", "loopscript"} THEN "*" ELSE m)] : c \in (IF IncludeCtx THEN Ctxs ELSE Ctxs \ {"incl"}), m \in Msgs }
-   \cup EoeItems \cup { [k |-> "obs"] }
+   \cup EoeItems \cup { [k |-> "obs"], [k |-> "seterr"] }
 Init == items = <<>>
 Next == Len(items) < N /\ \E it \in Items : items' = Append(items, it)
 Spec == Init /\ [][Next]_items
 Full == Append(items, [k |-> "obs"])
 X == Exec(Full)
 LatestWins == X.ok => LET o == X.obs[Len(X.obs)]
-                          F == {k \in 1..Len(items) : items[k].k = "fail"} IN
-                      IF F = {} THEN o.msg = "" /\ o.line = 0 /\ o.o = ""
-                      ELSE LET k == CHOOSE j \in F : \A i \in F : i <= j IN o.msg = items[k].m /\ o.line = ErrAt(items, k).line /\ o.o = "false"
+                          F == {k \in 1..Len(items) : items[k].k = "fail"}
+                          E == {k \in 1..Len(items) : items[k].k \in {"fail", "seterr"}} IN
+                      /\ o.o = (IF F = {} THEN "" ELSE "false")
+                      /\ IF E = {} THEN o.msg = "" /\ o.line = 0
+                         ELSE LET k == CHOOSE j \in E : \A i \in E : i <= j IN
+                              IF items[k].k = "seterr" THEN o.msg = "se" /\ o.line = 0
+                              ELSE o.msg = items[k].m /\ o.line = ErrAt(items, k).line
 StopsAtFirst == ~X.ok => \E k \in 1..Len(items) : items[k].k = "fail" /\ X.msg = items[k].m /\ X.line = ErrAt(items, k).line
                           /\ \E j \in 1..(k-1) : items[j].k = "eoe" /\ items[j].on
 Emit == EMIT => PrintT(<<"CASE", ToJson([items |-> Full, exp |-> X])>>)
